@@ -127,12 +127,26 @@ func (m *ImageVol) ReadBox(v int, off, size [3]int32) (data []byte, written []bo
 	data = make([]byte, n*m.BPV)
 	written = make([]bool, n)
 	i := 0
+	var lastC [3]int32
+	var lastB []byte
+	have := false
 	for z := int32(0); z < size[2]; z++ {
 		for y := int32(0); y < size[1]; y++ {
 			for x := int32(0); x < size[0]; x++ {
-				b, w := m.Voxel(v, [3]int32{off[0] + x, off[1] + y, off[2] + z})
-				copy(data[i*m.BPV:(i+1)*m.BPV], b)
-				written[i] = w
+				p := [3]int32{off[0] + x, off[1] + y, off[2] + z}
+				c := m.BlockOf(p)
+				if !have || c != lastC {
+					lastC, have = c, true
+					lastB, _ = m.Block(v, c)
+				}
+				if lastB == nil {
+					copy(data[i*m.BPV:(i+1)*m.BPV], m.Bg)
+				} else {
+					bx, by, bz := int(p[0]-c[0]*m.BS[0]), int(p[1]-c[1]*m.BS[1]), int(p[2]-c[2]*m.BS[2])
+					j := ((bz*int(m.BS[1])+by)*int(m.BS[0]) + bx) * m.BPV
+					copy(data[i*m.BPV:(i+1)*m.BPV], lastB[j:j+m.BPV])
+					written[i] = true
+				}
 				i++
 			}
 		}
